@@ -108,36 +108,40 @@ def c10(tier, repo=None):
     if thorough:
         fixed = [("par2", dict(mg=2, multi=True)), ("seq", dict(mg=2)), ("nestdup", dict(mu=3, mo=3)), ("par3", dict(mu=4, mo=4)),
                  ("nest", dict(mu=3, mo=3)), ("nest", dict(mu=3, mo=3, md=1, multi=True)), ("nestdup", dict(mu=3, mo=3, md=1, multi=True)),
-                 ("sbr", dict(mg=2, mu=4, mo=4, md=2)), ("nsbr", dict(mg=2, mu=4, mo=4, md=2, multi=True)), ("tools", dict(mg=2, mu=4, mo=4, md=2))]
+                 ("sbr", dict(mg=2, mu=4, mo=4, md=2)), ("nsbr", dict(mg=2, mu=4, mo=4, md=2, multi=True)), ("tools", dict(mg=2, mu=4, mo=4, md=2)),
+                 ("det", dict(mg=2, mu=4, mo=4, md=2))]
     else:
-        fixed = [("par2", dict(mg=1)), ("seq", dict(mg=1)), ("nestdup", dict(mu=3, mo=3)), ("nest", dict(mu=2, mo=2, md=1, multi=True)),
-                 ("sbr", dict(mu=3, mo=3, md=1)), ("nsbr", dict(mu=3, mo=3, md=1, multi=True)), ("tools", dict(mg=2, mu=3, mo=3, md=1))]
+        fixed = [("par2", dict(mg=1)), ("seq", dict(mg=1)), ("nestdup", dict(mu=2, mo=2)), ("nest", dict(mg=0, mu=2, mo=2, md=1, multi=True)),
+                 ("sbr", dict(mu=3, mo=3, md=1)), ("nsbr", dict(mu=3, mo=3, md=1, multi=True)), ("tools", dict(mg=2, mu=3, mo=3, md=1)),
+                 ("det", dict(mg=1, mu=3, mo=3, md=1))]
     jobs = [(lambda s=s, kw=kw: cb.cb_model(s, fix=True, workers=1 if not thorough else 2, timeout=1500 if thorough else 170, **kw)) for s, kw in fixed]
-    jobs.append(lambda: cb.cb_model("tools", fix=True, norebind=True, workers=1, timeout=170, mg=2, mu=3, mo=3, md=1))
-    jobs.append(lambda: cb.cb_model("sbr", fix=True, late=True, workers=1, timeout=170, mu=3, mo=3, md=1))
+    # seeded variants of the model: the rule must reject each of them (sanity of rule + model; otherwise inconclusive)
+    variants = [("NoRebind: withRunInfo returns a manager without per-call handlers unchanged (tool calls under the ToolsNode's run info)",
+                 "tools", dict(norebind=True, mg=2, mu=3, mo=3, md=1)),
+                ("LateFlag: haveOnStart set behind the fresh-start block (graph start compensated a second time)", "sbr", dict(late=True, mu=3, mo=3, md=1)),
+                ("KeepScope: InitCallbacks without handlers returns ctx unchanged (detached scope reports to the enclosing node)", "det",
+                 dict(keepscope=True, mg=1, mu=2, mo=2, md=1)),
+                ("ExtractFirst: extractOption in front of the deferred start/end pairing (rejected run reports nothing)", "nest",
+                 dict(extractfirst=True, mu=2, mo=2, md=1))]
+    for what, shape, kw in variants:
+        jobs.append(lambda shape=shape, kw=kw: cb.cb_model(shape, fix=True, workers=1, timeout=170, **kw))
     jobs.append(lambda: cb.cb_model("par2", fix=False, workers=1, timeout=170, mg=1))
     runs = _par(jobs, 4 if not thorough else 2)
     states = trans = 0
     model_runs = []
-    late = runs[-2]
-    if late.timed_out or late.error != "invariant:RuleOK":
-        raise Inconclusive("C10 model variant LateFlag (graph start compensated after an early return) should violate RuleOK: TLC reported %s\n%s" % (
-            late.error, late.stdout[-1500:]))
-    noreb = runs[-3]
-    if noreb.timed_out or noreb.error != "invariant:RuleOK":
-        raise Inconclusive("C10 model variant NoRebind (withRunInfo keeps the ToolsNode's run info) should violate RuleOK: TLC reported %s\n%s" % (
-            noreb.error, noreb.stdout[-1500:]))
-    for (s, kw), run in zip(fixed, runs[:-3]):
+    nv = len(variants)
+    for (s, kw), run in zip(fixed, runs[:-(nv + 1)]):
         vlib.tlc_must_pass(run, "C10 model (with repair) %s" % s)
         states += run.distinct
         trans += run.generated
         model_runs.append({"model": "Callbacks/CopyFix", "shape": s, "bounds": kw, "distinct": run.distinct, "generated": run.generated,
                            "depth": run.depth, "wall_s": round(run.wall_s, 1), "result": "RuleOK holds"})
         log("  model Callbacks[%s, repaired]: RuleOK holds, %d distinct states, %d generated, depth %d, %.0fs" % (s, run.distinct, run.generated, run.depth, run.wall_s))
-    model_runs.append({"model": "Callbacks/CopyFix+LateFlag (seeded variant: haveOnStart set behind the fresh-start block)", "shape": "sbr",
-                       "distinct": late.distinct, "wall_s": round(late.wall_s, 1), "result": "RuleOK violated (start-twice), as it must be"})
-    model_runs.append({"model": "Callbacks/CopyFix+NoRebind (seeded variant: withRunInfo returns a manager without per-call handlers unchanged)", "shape": "tools",
-                       "distinct": noreb.distinct, "wall_s": round(noreb.wall_s, 1), "result": "RuleOK violated (tool-call events under the ToolsNode's run info), as it must be"})
+    for (what, shape, kw), vr in zip(variants, runs[-(nv + 1):-1]):
+        if vr.timed_out or vr.error != "invariant:RuleOK":
+            raise Inconclusive("C10 model variant '%s' should violate RuleOK: TLC reported %s\n%s" % (what, vr.error, vr.stdout[-1500:]))
+        model_runs.append({"model": "Callbacks/seeded variant " + what, "shape": shape, "distinct": vr.distinct, "wall_s": round(vr.wall_s, 1),
+                           "result": "RuleOK violated, as it must be"})
     asis = runs[-1]
     if asis.timed_out or asis.error not in (None, "invariant:RuleOK"):
         raise Inconclusive("C10 model as coded: TLC reported %s\n%s" % (asis.error, asis.stdout[-2000:]))
@@ -152,7 +156,7 @@ def c10(tier, repo=None):
                 ("nestdup", dict(mu=3, mo=3), None, 3000), ("nest", dict(mu=3, mo=3), "num=2500", 3000), ("par3", dict(mu=4, mo=4), "num=2500", 3000),
                 ("nest", dict(mu=3, mo=3, md=2, multi=True), "num=2000", 2500), ("nestdup", dict(mu=3, mo=3, md=2, multi=True), "num=1500", 2000),
                 ("sbr", dict(mg=2, mu=4, mo=4, md=2), None, 2000), ("nsbr", dict(mg=2, mu=4, mo=4, md=2, multi=True), None, 2500),
-                ("tools", dict(mg=2, mu=4, mo=4, md=2), None, 3000)]
+                ("tools", dict(mg=2, mu=4, mo=4, md=2), None, 3000), ("det", dict(mg=2, mu=4, mo=4, md=2), "num=2000", 3000)]
     else:
         gens = [("par2", dict(mg=1, mu=3, mo=3, md=2), None, 550), ("par2", dict(mg=1, mu=2, mo=2, md=1, multi=True), None, 120),
                 ("seq", dict(mg=1, mu=3, mo=3), None, 60),
@@ -162,7 +166,9 @@ def c10(tier, repo=None):
                 # runs that end inside the START step (branch on START selects END / fails / interrupt-before), top-level and nested
                 ("sbr", dict(mu=2, mo=2, md=1), None, 220), ("nsbr", dict(mu=2, mo=2, md=1, multi=True), None, 260),
                 # a ToolsNode with two parallel tool calls (tool-call units); supply includes "global handlers only"
-                ("tools", dict(mg=2, mu=2, mo=2, md=1), None, 300)]
+                ("tools", dict(mg=2, mu=2, mo=2, md=1), None, 300),
+                # a component run under a detached callback scope (InitCallbacks without handlers) inside a node body
+                ("det", dict(mg=1, mu=2, mo=2, md=1), "num=150", 250)]
 
     def gen(shape, kw, sim, limit):
         cases, run = cb.cb_generate(shape, simulate=sim, depth=80 if sim else None, seed=vlib.SEED if sim else None,
@@ -474,6 +480,50 @@ def _c10(tier):
 
 def _c16(tier):
     return c16(tier, repo=os.environ.get("VERIF_REPO"))
+
+
+# ------------------------------------------------------------------------------------------------ C09: callback isolation between runs
+
+def callback_isolation(tier, repo=None):
+    """Callback part of C09 (called by lib/checks_engine.py:c09, which owns verdict and evidence): two OVERLAPPING runs of one compiled
+    runnable, each with its own per-call compose.WithCallbacks handler, started from a context (callbacks.InitCallbacks, or a node of an
+    outer graph run) that already carries 0..7 handlers registered one by one.  Every run is projected to one CbObs case (inherited and
+    own handler apply to the run's units, the other run's handler to none) and judged by TLC against spec/CbObs.tla (CbRule).
+    The mechanism (two siblings appending their own handler to an inherited slice built by single appends) is the one Callbacks.tla
+    model-checks in shape par2; that run supplies states / transitions.
+    Returns dict(cases, lines, states, transitions, bad=[(case id, reason)], race_reports, samples, ...)."""
+    t0 = time.time()
+    thorough = tier == "thorough"
+    reps = 6 if thorough else 2
+    cases = []
+    for mode in ("ctx", "outer"):
+        for ninh in range(0, 8):
+            for r in range(reps):
+                cases.append({"id": "%s-%d-%d" % (mode, ninh, r), "mode": mode, "ninh": ninh})
+    log("[callback isolation] tier=%s cases=%d repo=%s" % (tier, len(cases), repo or vlib.REPO))
+    with concurrent.futures.ThreadPoolExecutor(max_workers=1) as ex:
+        fut = ex.submit(lambda: cb.cb_model("par2", fix=True, workers=2, timeout=600, mg=1 if not thorough else 2))
+        all_lines, bad, races, samples = [], [], [], []
+        vstates = vtrans = 0
+        for race in ((False, True) if thorough else (False,)):
+            lines, wall, out = cb.iso_replay(cases, race=race, repo=repo, timeout=900)
+            if race:
+                races += [list(r) for r in cb.race_reports(out)]
+            res = cb.validate("CbObs", lines, nproc=2)
+            vstates += res["states"]
+            vtrans += res["transitions"]
+            all_lines += lines
+            bad += [(b[0] + ("/race" if race else ""), b[2]) for b in res["bad"]]
+            if not samples:
+                idx = cb.index_cases(lines)
+                for k in vlib.sample(sorted(idx.keys()), 2):
+                    samples.append({"case": idx[k][0], "observations": [json.loads(x) for x in idx[k][1][1:12]]})
+        model = fut.result()
+    vlib.tlc_must_pass(model, "callback isolation: Callbacks.tla par2 (with repair)")
+    return {"states": model.distinct, "transitions": model.generated, "cases": 2 * len(cases) * (2 if thorough else 1), "lines": len(all_lines),
+            "bad": bad, "race_reports": races, "samples": samples,
+            "model_runs": [{"model": "Callbacks/CopyFix par2", "distinct": model.distinct, "generated": model.generated, "wall_s": round(model.wall_s, 1)}],
+            "trace_validation_states": vstates, "wall_s": round(time.time() - t0, 1)}
 
 
 def _replay_one(prop, path):
